@@ -262,6 +262,9 @@ fn clear_profile() -> Profile {
     let mut p = gen::profile("C17");
     p.w[gen::W_CLEAR] = 0;
     p.w[gen::W_REWIND] = 2;
+    // extra arena values only change refs(), which is not part of "indistinguishable from a fresh arena"
+    p.w[gen::W_CLONE] = 0;
+    p.w[gen::W_DROPARENA] = 0;
     p
 }
 
